@@ -168,62 +168,6 @@ Qed.
 Ltac leaf :=
   let E := fresh "E" in intros E; inversion E; subst; clear E.
 
-(* OLDPROOF
-Lemma scan_unq_p_ok inKey : forall n l, (length l <= n)%nat -> forall k p lns acc v lns' c' es,
-  okc (k, p, l) -> okp lns -> (fst lns <= k)%nat ->
-  scan_unq_p u16 inKey l k p lns acc = Some (v, lns', c', es) ->
-  okc c' /\ (k <= ck c')%nat /\ okp lns' /\ (fst lns <= fst lns' <= ck c')%nat /\ Forall okr es.
-Proof.
-  induction n as [|n IH]; intros l Hl k p lns acc v lns' c' es HC HL HK.
-  - destruct l; [|cbn in Hl; lia]. cbn. leaf. unfold ck; cbn. repeat split; auto; try lia; apply HL.
-  - destruct l as [|r tl]; [cbn; leaf; unfold ck; cbn; repeat split; auto; try lia; apply HL|].
-    cbn [scan_unq_p]. cbn in Hl.
-    assert (Base : okc (k, p, r :: tl) -> okp lns -> (fst lns <= k)%nat ->
-                   okc (k, p, r :: tl) /\ (k <= ck (k, p, r :: tl))%nat /\ okp lns /\
-                   (fst lns <= fst lns <= ck (k, p, r :: tl))%nat /\ Forall okr (@nil irange))
-      by (intros; unfold ck; cbn; repeat split; auto; lia).
-    destruct (is_top_delim r); [leaf; apply Base; auto|].
-    destruct (inKey && is_key_delim r); [leaf; apply Base; auto|].
-    pose proof (okc_step _ _ _ _ HC) as HC1.
-    destruct (inKey && (r =? cDASH)).
-    + destruct tl as [|r2 tl2]; [leaf; apply Base; auto|]. cbn in Hl.
-      destruct (is_top_delim r2).
-      { leaf. unfold ck; cbn. repeat split; auto; try lia; try apply HL. apply HC1. apply HC1. }
-      destruct ((r2 =? cDASH) || (r2 =? cGT) || (r2 =? cSTAR)); [leaf; apply Base; auto|].
-      pose proof (okc_step _ _ _ _ HC1) as HC2.
-      destruct (negb inKey && (r2 =? cDOLLAR)); [discriminate|].
-      set (lns1 := if is_space r2 then lns else (S (S k), advance u16 (advance u16 p r) r2)).
-      assert (L1 : okp lns1 /\ (fst lns <= fst lns1 <= S (S k))%nat).
-      { unfold lns1. destruct (is_space r2); cbn; [split; [exact HL | lia] | split; [apply (okc_okp _ _ _ HC2) | lia]]. }
-      destruct L1 as [L1 L1'].
-      destruct (r2 =? cBSL) eqn:B.
-      * destruct tl2 as [|r3 tl3].
-        { leaf. rewrite (back_step _ _ _ _ cBSL HC1 B eq_refl), (okp_eof_nil _ _ HC2).
-          unfold ck; cbn. repeat split; auto; try lia; try apply HC2.
-          constructor; [|constructor]. repeat split; cbn; try apply HC1; try apply HC2. lia. }
-        cbn in Hl. destruct (r3 =? cNL); [discriminate|].
-        intros E. apply IH in E; [| lia | apply okc_step; exact HC2 | exact L1 | lia].
-        destruct E as (A & B1 & C & D & F). repeat split; auto; lia.
-      * intros E. apply IH in E; [| lia | exact HC2 | exact L1 | lia].
-        destruct E as (A & B1 & C & D & F). repeat split; auto; lia.
-    + destruct (negb inKey && (r =? cDOLLAR)); [discriminate|].
-      set (lns1 := if is_space r then lns else (S k, advance u16 p r)).
-      assert (L1 : okp lns1 /\ (fst lns <= fst lns1 <= S k)%nat).
-      { unfold lns1. destruct (is_space r); cbn; [split; [exact HL | lia] | split; [apply (okc_okp _ _ _ HC1) | lia]]. }
-      destruct L1 as [L1 L1'].
-      destruct (r =? cBSL) eqn:B.
-      * destruct tl as [|r2 tl2].
-        { leaf. rewrite (back_step _ _ _ _ cBSL HC B eq_refl), (okp_eof_nil _ _ HC1).
-          unfold ck; cbn. repeat split; auto; try lia; try apply HC1.
-          constructor; [|constructor]. repeat split; cbn; try apply HC; try apply HC1. lia. }
-        cbn in Hl. destruct (r2 =? cNL); [discriminate|].
-        intros E. apply IH in E; [| lia | apply okc_step; exact HC1 | exact L1 | lia].
-        destruct E as (A & B1 & C & D & F). repeat split; auto; lia.
-      * intros E. apply IH in E; [| lia | exact HC1 | exact L1 | lia].
-        destruct E as (A & B1 & C & D & F). repeat split; auto; lia.
-Qed.
-OLDPROOF *)
-
 Ltac splits := repeat match goal with |- _ /\ _ => split end.
 Ltac fin :=
   unfold ck in *; cbn [fst snd] in *;
